@@ -1,3 +1,450 @@
 package main
 
-func checkMain(repo, verif string, args []string) int { return 2 }
+import (
+	"encoding/json"
+	"fmt"
+	"os"
+	"os/exec"
+	"path/filepath"
+	"regexp"
+	"sort"
+	"strings"
+	"time"
+
+	"verif/engine/symx"
+)
+
+// Run is one harness exploration belonging to a property check.
+type Run struct {
+	Name      string         `json:"name"`
+	Pkg       string         `json:"pkg"` // ".", "./skiplist", "./nodetable"
+	Entry     string         `json:"entry"`
+	Tiers     []string       `json:"tiers"` // which tiers include this run
+	Bounds    map[string]int `json:"bounds"`
+	MaxLevel  int            `json:"maxlevel"`
+	Preempt   *int           `json:"preempt,omitempty"`
+	SchedFree bool           `json:"schedfree,omitempty"`
+	NumCPU    int            `json:"numcpu,omitempty"`
+	MaxInstr  int            `json:"maxinstr,omitempty"`
+	Loop      int            `json:"loop,omitempty"`
+	Reach     []string       `json:"reach"` // vacuity witnesses that must be reached
+	Note      string         `json:"note,omitempty"`
+}
+
+type CheckDef struct {
+	Property    string   `json:"property"`
+	Runs        []Run    `json:"runs"`
+	Assumptions []string `json:"assumptions"`
+}
+
+type KnownFinding struct {
+	Property string `json:"property"`
+	ID       string `json:"id"`
+	Status   string `json:"status"` // "open" or "fixed"
+	Entry    string `json:"entry"`  // harness entry point
+	Match    string `json:"match"`  // regexp on "<message> || <stack>"
+	What     string `json:"what"`
+	Commit   string `json:"commit,omitempty"`
+}
+
+func loadJSON(path string, v interface{}) error {
+	b, err := os.ReadFile(path)
+	if err != nil {
+		return err
+	}
+	return json.Unmarshal(b, v)
+}
+
+func inTier(r Run, tier string) bool {
+	for _, t := range r.Tiers {
+		if t == tier {
+			return true
+		}
+	}
+	return false
+}
+
+type runReport struct {
+	Run          string            `json:"run"`
+	Entry        string            `json:"entry"`
+	Bounds       map[string]int    `json:"bounds"`
+	Paths        int               `json:"paths"`
+	Completed    int               `json:"completed_paths"`
+	Infeasible   int               `json:"infeasible_paths"`
+	Asserts      int               `json:"assertions_checked"`
+	Queries      int               `json:"solver_queries"`
+	Unsat        int               `json:"unsat"`
+	Sat          int               `json:"sat"`
+	Unknown      int               `json:"unknown"`
+	SolverS      float64           `json:"solver_time_s"`
+	WallS        float64           `json:"wall_s"`
+	Instrs       int               `json:"ssa_instructions_executed"`
+	Reached      map[string]int    `json:"vacuity_witnesses_reached"`
+	Unsupported  map[string]int    `json:"unsupported,omitempty"`
+	BoundHits    map[string]int    `json:"bound_exceeded,omitempty"`
+	Violations   int               `json:"violations"`
+	Rounds       int               `json:"rounds"`
+	MaxDecisions int               `json:"max_decisions_on_a_path"`
+	Preempt      int               `json:"preemption_bound"`
+	Extra        map[string]string `json:"extra,omitempty"`
+}
+
+func checkMain(repo, verif string, args []string) int {
+	if len(args) < 1 {
+		fmt.Fprintln(os.Stderr, "usage: vcheck [flags] <property> [quick|thorough] | vcheck <property> --replay <file>")
+		return 2
+	}
+	prop := args[0]
+	tier := os.Getenv("VERIF_TIER")
+	if tier == "" {
+		tier = "quick"
+	}
+	replayFile := ""
+	for i := 1; i < len(args); i++ {
+		switch args[i] {
+		case "quick", "thorough":
+			tier = args[i]
+		case "--replay":
+			if i+1 < len(args) {
+				replayFile = args[i+1]
+				i++
+			}
+		}
+	}
+	if replayFile != "" {
+		ok, out := replayNative(repo, verif, replayFile)
+		fmt.Print(out)
+		if ok {
+			fmt.Printf("VIOLATION property=%s replay=%s\n", prop, replayFile)
+			return 1
+		}
+		return 0
+	}
+	var def CheckDef
+	if err := loadJSON(filepath.Join(verif, "checks", prop+".json"), &def); err != nil {
+		fmt.Fprintln(os.Stderr, "cannot load check definition:", err)
+		return 2
+	}
+	var known []KnownFinding
+	loadJSON(filepath.Join(verif, "known_findings.json"), &known)
+	seed := 0
+	fmt.Sscanf(os.Getenv("VERIF_SEED"), "%d", &seed)
+
+	t0 := time.Now()
+	var reports []runReport
+	funcs := map[string]int{}
+	stubs := map[string]int{}
+	var samples []string
+	totalQ, totalUnsat, totalPaths, totalAsserts, completed := 0, 0, 0, 0, 0
+	solverS := 0.0
+	inconclusive := []string{}
+	newViolations := 0
+	knownHits := map[string]bool{}
+	replayed := 0
+	var violLines []string
+	os.MkdirAll(filepath.Join(verif, "replay"), 0755)
+
+	for _, r := range def.Runs {
+		if !inTier(r, tier) {
+			continue
+		}
+		cfg := &symx.Config{Entry: r.Entry, Bounds: r.Bounds, MaxInstr: 20_000_000, LoopBudget: 5000, Solver: "z3", TimeoutMs: 60000,
+			Workers: 8, Preempt: -1, MaxLevel: r.MaxLevel, StopOnFirst: false, NumCPU: 2, SchedFree: r.SchedFree}
+		if r.Preempt != nil {
+			cfg.Preempt = *r.Preempt
+		}
+		if r.NumCPU > 0 {
+			cfg.NumCPU = r.NumCPU
+		}
+		if r.MaxInstr > 0 {
+			cfg.MaxInstr = r.MaxInstr
+		}
+		if r.Loop > 0 {
+			cfg.LoopBudget = r.Loop
+		}
+		if w := os.Getenv("VERIF_WORKERS"); w != "" {
+			fmt.Sscanf(w, "%d", &cfg.Workers)
+		}
+		cfg.MaxViolations = 40
+		res, err := symx.RunHarness(repo, verif, r.Pkg, cfg)
+		if err != nil {
+			fmt.Fprintf(os.Stderr, "run %s: %v\n", r.Name, err)
+			inconclusive = append(inconclusive, r.Name+": "+err.Error())
+			continue
+		}
+		rep := runReport{Run: r.Name, Entry: r.Entry, Bounds: r.Bounds, Paths: res.Paths, Completed: res.Completed, Infeasible: res.Infeasible,
+			Asserts: res.Asserts, Queries: res.Solver.Queries, Unsat: res.Solver.Unsat, Sat: res.Solver.Sat, Unknown: res.Solver.Unknown + res.Solver.Errors,
+			SolverS: res.Solver.Time.Seconds(), WallS: res.Wall.Seconds(), Instrs: res.Instrs, Reached: res.Reached, Unsupported: res.Unsupported,
+			BoundHits: res.BoundHits, Violations: len(res.Violations), Rounds: res.Rounds, MaxDecisions: res.MaxTraceLen, Preempt: cfg.Preempt}
+		reports = append(reports, rep)
+		totalQ += res.Solver.Queries
+		totalUnsat += res.Solver.Unsat
+		totalPaths += res.Paths
+		completed += res.Completed
+		totalAsserts += res.Asserts
+		solverS += res.Solver.Time.Seconds()
+		for f, n := range res.Funcs {
+			funcs[f] += n
+		}
+		for f, n := range res.Stubs {
+			stubs[f] += n
+		}
+		for _, s := range res.Samples {
+			if len(samples) < 12 {
+				samples = append(samples, r.Name+": "+s)
+			}
+		}
+		if !res.Clean() {
+			for k := range res.Unsupported {
+				inconclusive = append(inconclusive, r.Name+": unsupported: "+k)
+			}
+			for k := range res.BoundHits {
+				inconclusive = append(inconclusive, r.Name+": bound exceeded: "+k)
+			}
+			if res.Solver.Unknown+res.Solver.Errors+res.Inconclusive > 0 {
+				inconclusive = append(inconclusive, fmt.Sprintf("%s: %d solver unknown/error results", r.Name, res.Solver.Unknown+res.Solver.Errors+res.Inconclusive))
+			}
+			if res.Truncated {
+				inconclusive = append(inconclusive, r.Name+": exploration truncated")
+			}
+		}
+		if len(res.Violations) == 0 {
+			for _, l := range r.Reach {
+				if res.Reached[l] == 0 {
+					inconclusive = append(inconclusive, fmt.Sprintf("%s: vacuity witness %q not reached", r.Name, l))
+				}
+			}
+		}
+		// violations: dedupe by signature, classify, replay
+		seen := map[string]bool{}
+		for _, v := range res.Violations {
+			sig := violationSig(v)
+			if seen[sig] {
+				continue
+			}
+			seen[sig] = true
+			kf := matchKnown(known, prop, r.Entry, v)
+			path := filepath.Join(verif, "replay", fmt.Sprintf("%s-%s-%d.json", prop, r.Name, len(seen)))
+			writeReplay(path, r, cfg, v)
+			ok, out := replayNative(repo, verif, path)
+			replayed++
+			if kf != nil && kf.Status == "open" {
+				if !knownHits[kf.ID] {
+					knownHits[kf.ID] = true
+					fmt.Printf("KNOWN-FINDING: property=%s %s (%s)\n", prop, kf.What, kf.ID)
+				}
+				continue
+			}
+			if ok {
+				newViolations++
+				line := fmt.Sprintf("VIOLATION property=%s replay=%s", prop, path)
+				violLines = append(violLines, line)
+				fmt.Printf("counterexample (%s): %s\n%s", r.Name, v.Msg, v.Stack)
+				fmt.Println(line)
+			} else {
+				fmt.Printf("UNCONFIRMED-COUNTEREXAMPLE property=%s run=%s: %s (native replay did not reproduce; replay=%s)\n%s\n", prop, r.Name, v.Msg, path, tailLines(out, 15))
+				inconclusive = append(inconclusive, r.Name+": unconfirmed counterexample: "+v.Msg)
+			}
+		}
+	}
+	wall := time.Since(t0).Seconds()
+
+	// evidence
+	fnList := make([]string, 0, len(funcs))
+	for f := range funcs {
+		if strings.Contains(f, "couchbase/nitro") && !strings.Contains(f, ".v") && !strings.Contains(f, ".H_") {
+			fnList = append(fnList, f)
+		}
+	}
+	sort.Strings(fnList)
+	depList := []string{}
+	for f := range funcs {
+		if !strings.Contains(f, "couchbase/nitro") {
+			depList = append(depList, f)
+		}
+	}
+	sort.Strings(depList)
+	stubList := make([]string, 0, len(stubs))
+	for f := range stubs {
+		if !strings.Contains(f, "couchbase/nitro") {
+			stubList = append(stubList, f)
+		}
+	}
+	sort.Strings(stubList)
+	if len(samples) == 0 {
+		samples = []string{"no completed path"}
+	}
+	ev := map[string]interface{}{
+		"property_id": prop,
+		"tier":        tier,
+		"seed":        seed,
+		"level":       "model_checking",
+		"wall_s":      wall,
+		"violations":  newViolations,
+		"assumptions": def.Assumptions,
+		"coverage": map[string]interface{}{
+			"evaluations":                   totalQ,
+			"distinct_nontrivial":           completed,
+			"rule":                          "one case = one feasible path class of the harness (a distinct sequence of fork decisions: symbolic opcodes, comparison outcomes, coin flips, schedule choices) executed to the end over the real SSA with symbolic data; evaluations = SMT queries issued; every assertion on every path is discharged by an unsat answer to pc ∧ ¬assert",
+			"samples":                       samples,
+			"states":                        totalPaths,
+			"transitions":                   sumInstrs(reports),
+			"traces_validated_against_impl": replayed,
+			"exhaustive":                    false,
+			"technique":                     "bounded symbolic execution of go/ssa with z3 (path forking, byte-precise memory)",
+			"functions_encoded":             fnList,
+			"dependency_functions_encoded":  depList,
+			"stubs_used":                    stubList,
+			"runs":                          reports,
+			"queries_unsat":                 totalUnsat,
+			"solver_time_s":                 solverS,
+			"solver":                        "z3 4.8.12 (one persistent process per worker, push/pop)",
+			"assertions_checked":            totalAsserts,
+			"inconclusive":                  inconclusive,
+			"known_findings_hit":            keys(knownHits),
+		},
+	}
+	os.MkdirAll(filepath.Join(verif, "evidence"), 0755)
+	b, _ := json.MarshalIndent(ev, "", " ")
+	os.WriteFile(filepath.Join(verif, "evidence", prop+".json"), b, 0644)
+
+	fmt.Printf("check %s tier=%s: runs=%d paths=%d queries=%d (unsat %d) asserts=%d wall=%.1fs new_violations=%d known=%d inconclusive=%d\n",
+		prop, tier, len(reports), totalPaths, totalQ, totalUnsat, totalAsserts, wall, newViolations, len(knownHits), len(inconclusive))
+	if newViolations > 0 {
+		return 1
+	}
+	if len(inconclusive) > 0 {
+		for _, s := range inconclusive {
+			fmt.Println("INCONCLUSIVE:", s)
+		}
+		return 2
+	}
+	return 0
+}
+
+func sumInstrs(rs []runReport) int {
+	n := 0
+	for _, r := range rs {
+		n += r.Instrs
+	}
+	if n == 0 {
+		n = 1
+	}
+	return n
+}
+
+func keys(m map[string]bool) []string {
+	ks := []string{}
+	for k := range m {
+		ks = append(ks, k)
+	}
+	sort.Strings(ks)
+	return ks
+}
+
+func tailLines(s string, n int) string {
+	ls := strings.Split(strings.TrimSpace(s), "\n")
+	if len(ls) > n {
+		ls = ls[len(ls)-n:]
+	}
+	return strings.Join(ls, "\n")
+}
+
+var posRe = regexp.MustCompile(`zz_verif_[a-z0-9_]+\.go:\d+`)
+
+func violationSig(v *symx.Violation) string {
+	return v.Msg + "|" + strings.Join(posRe.FindAllString(v.Stack, 2), ",")
+}
+
+func matchKnown(known []KnownFinding, prop, entry string, v *symx.Violation) *KnownFinding {
+	text := v.Msg + " || " + strings.ReplaceAll(v.Stack, "\n", " ")
+	for i := range known {
+		k := &known[i]
+		if k.Property != prop || (k.Entry != "" && k.Entry != entry) {
+			continue
+		}
+		if ok, _ := regexp.MatchString(k.Match, text); ok {
+			return k
+		}
+	}
+	return nil
+}
+
+type replayDoc struct {
+	Property string            `json:"property"`
+	Run      string            `json:"run"`
+	Pkg      string            `json:"pkg"`
+	Entry    string            `json:"entry"`
+	Message  string            `json:"message"`
+	Kind     string            `json:"kind"`
+	Stack    string            `json:"stack"`
+	Inputs   map[string]uint64 `json:"inputs"`
+	Bounds   map[string]int    `json:"bounds"`
+	Sched    []symx.SchedEvent `json:"sched"`
+}
+
+func writeReplay(path string, r Run, cfg *symx.Config, v *symx.Violation) {
+	d := replayDoc{Run: r.Name, Pkg: r.Pkg, Entry: r.Entry, Message: v.Msg, Kind: v.Kind, Stack: v.Stack, Inputs: v.Inputs, Bounds: r.Bounds, Sched: v.Sched}
+	b, _ := json.MarshalIndent(d, "", " ")
+	os.WriteFile(path, b, 0644)
+}
+
+// replayNative runs the harness natively (go test -overlay) with the recorded inputs. It reports whether the
+// real build fails (assertion, panic, fault, or a hang for deadlock-type counterexamples).
+func replayNative(repo, verif, replayPath string) (bool, string) {
+	var d replayDoc
+	if err := loadJSON(replayPath, &d); err != nil {
+		return false, "cannot read replay file: " + err.Error()
+	}
+	hdir := map[string]string{".": "nitro", "./skiplist": "skiplist", "./nodetable": "nodetable"}[d.Pkg]
+	tmp, err := os.MkdirTemp("", "verifreplay")
+	if err != nil {
+		return false, err.Error()
+	}
+	defer os.RemoveAll(tmp)
+	ov := map[string]string{}
+	files, _ := filepath.Glob(filepath.Join(verif, "harness", hdir, "*.go"))
+	for _, f := range files {
+		ov[filepath.Join(repo, d.Pkg, "zz_verif_"+filepath.Base(f))] = f
+	}
+	gen := func(tmpl, out string, repl ...string) {
+		b, _ := os.ReadFile(filepath.Join(verif, "harness", "native", tmpl))
+		s := strings.Replace(string(b), "package PKG", "package "+hdir, 1)
+		for i := 0; i+1 < len(repl); i += 2 {
+			s = strings.ReplaceAll(s, repl[i], repl[i+1])
+		}
+		p := filepath.Join(tmp, out)
+		os.WriteFile(p, []byte(s), 0644)
+		ov[filepath.Join(repo, d.Pkg, "zz_verif_"+out)] = p
+	}
+	gen("api_native.go.tmpl", "api_native.go")
+	gen("replay_test.go.tmpl", "replay_test.go", "ENTRY", d.Entry)
+	if len(d.Sched) > 0 {
+		if err := instrumentSchedule(repo, tmp, &d, ov); err != nil {
+			return false, "cannot instrument schedule: " + err.Error()
+		}
+	}
+	ovj, _ := json.Marshal(map[string]interface{}{"Replace": ov})
+	ovPath := filepath.Join(tmp, "overlay.json")
+	os.WriteFile(ovPath, ovj, 0644)
+	abs, _ := filepath.Abs(replayPath)
+	cmd := exec.Command("go", "test", "-vet=off", "-count=1", "-overlay", ovPath, "-run", "^TestVerifReplay$", "-timeout", "40s", d.Pkg)
+	cmd.Dir = repo
+	cmd.Env = append(os.Environ(), "GOFLAGS=-mod=mod", "GOPROXY=off", "GOSUMDB=off", "GOTOOLCHAIN=local", "VERIF_REPLAY="+abs)
+	out, err := cmd.CombinedOutput()
+	s := string(out)
+	if err == nil {
+		return false, s
+	}
+	switch {
+	case strings.Contains(s, "VERIF-ASSUME-FAILED"), strings.Contains(s, "VERIF-REPLAY-ERROR"), strings.Contains(s, "[build failed]"), strings.Contains(s, "[setup failed]"):
+		return false, s
+	case strings.Contains(s, "VERIF-ASSERT-FAILED"):
+		return true, s
+	case strings.Contains(s, "test timed out"):
+		return strings.Contains(d.Message, "deadlock") || strings.Contains(d.Message, "hang") || strings.Contains(d.Message, "terminate"), s
+	case strings.Contains(s, "panic:") || strings.Contains(s, "fatal error:") || strings.Contains(s, "SIGSEGV"):
+		return true, s
+	}
+	return false, s
+}
